@@ -4,6 +4,9 @@ GUARD = "--cfg greatest_ape_aquatic_verif"
 CRATES = {
     "kani-udp-proto": {"kani_args": ["-Z", "stubbing"]},
     "kani-common": {"kani_args": ["-Z", "stubbing"], "rustflags": GUARD},
+    "kani-ws-proto": {"kani_args": ["-Z", "stubbing"]},
+    "kani-udp": {"kani_args": ["-Z", "stubbing", "-Z", "unstable-options"], "rustflags": GUARD,
+                 "cbmc_args": ["--unwindset", "memcmp.0:22"]},
 }
 
 
@@ -15,6 +18,8 @@ def H(crate, name, claim, bound, functions=(), tier="quick", cost=10, **kw):
 
 UP = "kani-udp-proto"
 KC = "kani-common"
+KU = "kani-udp"
+KWP = "kani-ws-proto"
 
 PROPS = {}
 
@@ -96,6 +101,62 @@ PROPS["C11"] = {
         H(KC, "c11::c11_allows_truth_table_n1", "allows == set semantics", "1 symbolic hash", ["AccessList::allows"]),
         H(KC, "c11::c11_allows_truth_table_n2", "allows == set semantics", "2 symbolic hashes", ["AccessList::allows"]),
         H(KC, "c11::c11_update_keeps_old_on_error", "failed reload keeps the same Arc and returns Err; successful reload switches list and caches follow", "1-entry lists, all modes", ["update_access_list", "AccessListQuery::update"]),
+    ],
+}
+
+_C01_FUNCS = ["aquatic_udp::swarm::PeerMap::{announce,scrape_statistics,is_empty}", "SmallPeerMap::{remove,insert,num_seeders_leechers,extract_response_peers,is_full,to_large}",
+              "LargePeerMap::{remove_peer,insert,num_seeders_leechers,extract_response_peers,try_shrink}", "PeerStatus::from_event_and_bytes_left",
+              "rand SmallRng (xoshiro256++) + UniformInt sampling, real code with arbitrary generator state"]
+_ANN = ("one PeerMap::announce from an arbitrary state of exactly N distinct-key peers (invariant assumed): reply counts == reference over others; "
+        "post-state == reference (announcer stored once with left==0<=>seeder, new peer id, fresh deadline, or removed on stop; all others untouched; cached seeder count consistent); "
+        "scrape counts == stored; reply list <= min(numwant,max) (non-positive => max), all others when they fit else >= limit-1, distinct, members, never the requester")
+PROPS["C01"] = {
+    "level": "model_checking",
+    "functions": _C01_FUNCS,
+    "bounds": "pre-states of N = 0..4 peers quick (0,1,2 inline; 3,4 heap), N=5 and IPv6 instantiation thorough; one step from ANY invariant-satisfying state (inductive step, covers histories of any length within the size bound); "
+              "all request fields full width; max_response_peers 0..8; every RNG state",
+    "outside": "> 5 peers per torrent; real indexmap code (modelled); torrent-level maps and locks (see C04)",
+    "models": ["aquatic_common::IndexMap -> array-backed insertion-ordered model with swap_remove semantics (shims/common_shims.rs)",
+               "crossbeam_channel::Sender::try_send -> log (statistics channel)"],
+    "assumptions": ["Kani models the dev profile (overflow checks on)", "memory allocation never fails", "indexmap behaves as documented (insertion order, swap_remove)"],
+    "harnesses": [
+        H(KU, "c01::c01_announce_v4_small_n0", _ANN, "N=0 inline, IPv4", _C01_FUNCS[:2], cost=30),
+        H(KU, "c01::c01_announce_v4_small_n1", _ANN, "N=1 inline, IPv4", _C01_FUNCS[:2], cost=60),
+        H(KU, "c01::c01_announce_v4_small_n2", _ANN, "N=2 inline (crosses inline->heap), IPv4", _C01_FUNCS[:3], cost=200),
+        H(KU, "c01::c01_announce_v4_large_n3", _ANN, "N=3 heap (crosses heap->inline on stop), IPv4", _C01_FUNCS, cost=300),
+        H(KU, "c01::c01_announce_v4_large_n4", _ANN, "N=4 heap, IPv4", _C01_FUNCS, cost=400),
+        H(KU, "c01::c01_announce_v4_large_n5", _ANN, "N=5 heap, IPv4", _C01_FUNCS, tier="thorough", cost=900),
+        H(KU, "c01::c01_announce_v6_small_n2", _ANN, "N=2 inline, IPv6", _C01_FUNCS[:3], tier="thorough", cost=300),
+        H(KU, "c01::c01_announce_v6_large_n3", _ANN, "N=3 heap, IPv6", _C01_FUNCS, tier="thorough", cost=400),
+    ],
+}
+
+PROPS["C15"] = {
+    "level": "model_checking",
+    "functions": ["aquatic_ws_protocol::common::{serialize_20_bytes, TwentyByteVisitor::visit_str, deserialize_20_bytes}",
+                  "serde derive(transparent) glue of InfoHash / PeerId / OfferId", "serde::de::value::StrDeserializer"],
+    "bounds": "encode: all 2^160 identifiers; decode: strings of exactly 0, 1, 19, 20, 21, 22 chars, each char any of U+0000..U+FFFF (1-, 2- or 3-byte UTF-8, surrogates excluded)",
+    "outside": "whole-message JSON round-trips through the serde_json writer and the simd-json reader (runtime-dispatched SIMD kernels, not encodable); strings of 2..18 or > 22 chars; chars above U+FFFF",
+    "models": ["alloc::fmt::format -> empty String (error message text is not the subject)"],
+    "assumptions": ["the JSON reader hands the visitor the decoded string via visit_str (simd-json and serde_json both do for strings)"],
+    "harnesses": [
+        H(KWP, "c15::c15_id_encode", "text == 20 chars, char i == U+00<byte i> (reference UTF-8), for InfoHash/PeerId/OfferId", "all identifiers", ["serialize_20_bytes"]),
+    ] + [
+        H(KWP, "c15::c15_id_decode_n%d" % n, "Ok(v) <=> exactly 20 chars all <= U+00FF and v[i]==char i", "%d arbitrary chars" % n, ["TwentyByteVisitor::visit_str"], cost=60)
+        for n in (0, 1, 19, 20, 21, 22)
+    ],
+}
+
+PROPS["C05"] = {
+    "level": "model_checking",
+    "functions": ["aquatic_udp::workers::socket::validator::ConnectionValidator::{create_connection_id, connection_id_valid}", "constant_time_eq", "CanonicalSocketAddr::new"],
+    "bounds": "none on integers: all source addresses of both families (+ports), all u32 issue times, check times and max_connection_age, all i64 ids",
+    "outside": "BLAKE3 itself (the keyed hash is an uninterpreted function: deterministic, otherwise unconstrained; unforgeability = 2^-32 is assumed, stated as 'acceptance implies tag equality'); key generation; how often the worker refreshes its clock; io_uring handler",
+    "models": ["ConnectionValidator::hash -> memoised uninterpreted function via a guarded hook (same path under Kani and native replay)"],
+    "assumptions": ["BLAKE3 keyed hash is a PRF"],
+    "harnesses": [
+        H(KU, "c05::c05_window", "id issued to ip at t_issue is accepted from ip2 at t_check <=> tag equal (forced iff same ip) and t_issue+max_age > t_check and t_issue <= t_check+60, computed without wrap", "full width", ["create_connection_id", "connection_id_valid"], cost=30),
+        H(KU, "c05::c05_forged", "arbitrary id accepted <=> its tag bytes == MAC(its time bytes, source ip) and its time in window", "all i64 ids", ["connection_id_valid"], cost=30),
     ],
 }
 
